@@ -716,6 +716,31 @@ REPLAY_SCRIPT = textwrap.dedent(
                     st = cls2(t); st.write(v2); back = st.read()
                 except Exception as e: back = ("raised", repr(e))
                 if back != v2 or os.path.exists(t + ".STAGING"): bad.append((kind, "write after a death " + point, sorted(os.listdir(d)), repr(back)[:80]))
+    # two writers of DIFFERENT targets in one directory whose writes overlap (sibling names: same stem, other extension / no extension / dotted
+    # stems): writer A is inside its staged block when writer B writes its own target completely; afterwards each target holds exactly what its
+    # own writer wrote and both writes succeeded - a staging name shared between targets would let B rename A's half-written file
+    sib = ["result.json", "result.pkl", "result.txt", "result", "result.tar.gz", "result.tar", ".result", "result.json.bak"]
+    for mk in (str, pathlib.Path):
+        for a in sib:
+            for b in sib:
+                if a == b: continue
+                with tempfile.TemporaryDirectory() as d:
+                    ta, tb = os.path.join(d, a), os.path.join(d, b)
+                    err = None
+                    try:
+                        with staged_write(mk(ta), "w") as fa:
+                            fa.write("A-first-half;")
+                            fa.flush()
+                            with staged_write(mk(tb), "w") as fb:
+                                fb.write("B-complete")
+                            fa.write("A-second-half")
+                    except Exception as e:
+                        err = e
+                    ga = open(ta).read() if os.path.exists(ta) else None
+                    gb = open(tb).read() if os.path.exists(tb) else None
+                    left = sorted(set(os.listdir(d)) - {a, b})
+                    if err is not None or ga != "A-first-half;A-second-half" or gb != "B-complete" or left:
+                        bad.append(("overlapping writers", mk.__name__, (a, b), "error=%r A=%r B=%r left=%r" % (err, ga, gb, left)))
     for b in bad[:6]: print("C11 violated:", b)
     sys.exit(1 if bad else 0)
     '''
